@@ -2,6 +2,12 @@ import ctypes
 from .cell import CellType
 
 
+def parse_float(s):
+    """float() that also accepts the D exponent letter (what PRINT
+    shows for a DOUBLE in exponent form, and what VAL accepts)"""
+    return float(s.replace('D', 'E').replace('d', 'e'))
+
+
 def format_number(n, n_type):
     'Convert the given number to a string, the way QB used to do.'
     if n_type == CellType.SINGLE:
